@@ -33,14 +33,14 @@ CLAIMED = {
     },
     "C09": {
         "engine": "E3 guardfx (+E1 order)",
-        "technique": "static analysis: guard-dominates-effect over MIR CFG, constant-store dataflow on SessionParams, post-meta ordering of log pruning, set/consume pairing of the pending truncation, who-may-mutate ownership of the in-memory log, overlay-hit-is-final branch rule, variant-inspection rule for the delta codec (encode inspects / decode can build both variants), must-pass rule for the rollback's own commit after the truncation",
+        "technique": "static analysis: guard-dominates-effect over MIR CFG, constant-store dataflow on SessionParams, post-meta ordering of log pruning, set/consume pairing of the pending truncation, who-may-mutate ownership of the in-memory log, overlay-hit-is-final branch rule, variant-inspection rule for the delta codec (encode inspects / decode can build both variants), must-pass rule for the rollback's own commit after the truncation, variant-preserving plumbing of the reverse delta in Session::finish (one delta per commit)",
         "text": "Three clauses: an unservable rollback returns before any mutation; the rollback's own commit never records a delta nor takes the global guard; log pruning/truncation happens only after the meta switch-over and the pending truncation is consumed where it is applied; the in-memory log is mutated only by one-record push/pop operations of its owner type, each reachable only from its listed owners. Restored values are not decided.",
         "design_ref": "DESIGN.md 4 (E3), 5 (C09)",
         "note": _NOTE,
     },
     "C11": {
         "engine": "E3 guardfx (+ statusdom, shadow, mergefront)",
-        "technique": "static analysis: guard-dominates-effect over MIR CFG of the overlay commit entry points; finite-domain evaluation (MIR interpretation over the three status values) of the chain-completeness predicate; who-may-store on the status word; overlay-hit-is-final branch rule; must-pass-a-filter path rule for stored items of the leaf fetch (every next() -> LeafData path passes a call on the overlay deletions and the item); element-preserving-adapter rule for the updated page set; forward frontier dataflow (value numbering over MIR) for the completeness of the stored-leaves/overlay merge",
+        "technique": "static analysis: guard-dominates-effect over MIR CFG of the overlay commit entry points; finite-domain evaluation (MIR interpretation over the three status values) of the chain-completeness predicate; who-may-store on the status word; overlay-hit-is-final branch rule; must-pass-a-filter path rule for stored items of the leaf fetch (every next() -> LeafData path passes a call on the overlay deletions and the item); element-preserving-adapter rule for the updated page set; measured-or-indexed-only rule for the ancestor data of the overlay read path; forward frontier dataflow (value numbering over MIR) for the completeness of the stored-leaves/overlay merge",
         "text": "Refusal clause and three structural clauses of the read path: committing an overlay is gated by the parent-marker, lock and previous-root checks before any effect, including the committed-status flip that descendants consult; LiveOverlay::new refuses a chain exactly when the oldest supplied ancestor's parent is not COMMITTED (decided by enumerating the status domain); the status word only moves LIVE->DROPPED or ->COMMITTED; where the overlay chain is consulted a hit (including a delete) is final; the elided-subtree reconstruction copies or supersedes every stored leaf on every path. Overlay/commit behavioural equivalence is not decided.",
         "design_ref": "DESIGN.md 4 (E3), 5 (C11)",
         "note": _NOTE,
